@@ -193,7 +193,8 @@ ENCODED = ["twisted.web._http2:H2Connection._sendPrioritisedData", "twisted.web.
            "twisted.web._http2:H2Stream.flowControlBlocked", "twisted.web._http2:H2Stream.write",
            "twisted.web._http2:H2Stream.writeSequence", "twisted.web._http2:H2Stream.registerProducer",
            "twisted.web._http2:H2Stream.requestDone", "twisted.web._http2:H2Stream.abortConnection"]
-BOUNDS = {"quick": {"ns": 2, "hist": 3, "cap": 1 << 20}, "thorough": {"ns": 3, "hist": 4, "cap": 1 << 20}}
+BOUNDS = {"quick": {"ns": 2, "hns": 1, "hist": 2, "hfull": 0, "cap": 1 << 20},
+          "thorough": {"ns": 2, "hns": 2, "hist": 2, "hfull": 1, "cap": 1 << 20}}
 B = {}
 
 _SENT = _h2mod._END_STREAM_SENTINEL
@@ -234,6 +235,10 @@ class _FakeH2:
     @property
     def max_outbound_frame_size(self):
         return self.mfs
+
+    @property
+    def outbound_flow_control_window(self):
+        return self.cw
 
     @property
     def open_outbound_streams(self):
@@ -712,6 +717,11 @@ def _prod_events_ok(w):
             if e != expect:
                 return False
             expect = "resume" if expect == "pause" else "pause"
+        st = w.streams[i]
+        if st.producer is p:
+            told_paused = bool(p.events) and p.events[-1] == "pause"
+            if told_paused != (not st._producerProducing):
+                return False        # the stream's idea of its producer and what the producer was told differ
     return True
 
 
@@ -841,18 +851,18 @@ def step_turn(ns: int, cw: int, mfs: int, cb: bool, pick: int,
     return True
 
 
-def step_event(ns: int, cw: int, mfs: int, cb: bool, loop: int, ev: int, k: int, x: int,
+def step_event(ns: int, cw: int, mfs: int, loop: int, ev: int, k: int, x: int,
                sw0: int, s00: int, nq0: int, q10: int, q20: int, done0: bool, act0: bool, prod0: int,
                sw1: int, s01: int, nq1: int, q11: int, q21: int, done1: bool, act1: bool, prod1: int,
                sw2: int, s02: int, nq2: int, q12: int, q22: int, done2: bool, act2: bool, prod2: int) -> bool:
     """
     pre: _state_pre(ns, cw, mfs, (sw0, s00, nq0, q10, q20, done0, act0, prod0), (sw1, s01, nq1, q11, q21, done1, act1, prod1), (sw2, s02, nq2, q12, q22, done2, act2, prod2))
-    pre: _all(_rng(0, loop, 2), rope.bor(cb, loop != 2), _rng(0, ev, 3), _rng(0, k, ns - 1), _rng(-B['cap'], x, B['cap']), rope.bor(ev == 2, x >= 1))
+    pre: _all(_rng(0, loop, 2), _rng(0, ev, 3), _rng(0, k, ns - 1), _rng(-B['cap'], x, B['cap']), rope.bor(ev == 2, x >= 1))
     post: _
     """
     per = _per(ns, (sw0, s00, nq0, q10, q20, done0, act0, prod0), (sw1, s01, nq1, q11, q21, done1, act1, prod1),
                (sw2, s02, nq2, q12, q22, done2, act2, prod2))
-    w = _mk_state(ns, cw, mfs, per, loop, cb)
+    w = _mk_state(ns, cw, mfs, per, loop, False)
     if not w.invariant():
         return True
     kk = 0
@@ -880,18 +890,18 @@ def step_event(ns: int, cw: int, mfs: int, cb: bool, loop: int, ev: int, k: int,
     return True
 
 
-def step_app(ns: int, cw: int, mfs: int, cb: bool, loop: int, op: int, k: int, x: int, y: int,
+def step_app(ns: int, cw: int, mfs: int, loop: int, op: int, k: int, x: int, y: int,
              sw0: int, s00: int, nq0: int, q10: int, q20: int, done0: bool, act0: bool, prod0: int,
              sw1: int, s01: int, nq1: int, q11: int, q21: int, done1: bool, act1: bool, prod1: int,
              sw2: int, s02: int, nq2: int, q12: int, q22: int, done2: bool, act2: bool, prod2: int) -> bool:
     """
     pre: _state_pre(ns, cw, mfs, (sw0, s00, nq0, q10, q20, done0, act0, prod0), (sw1, s01, nq1, q11, q21, done1, act1, prod1), (sw2, s02, nq2, q12, q22, done2, act2, prod2))
-    pre: _all(_rng(0, loop, 2), rope.bor(cb, loop != 2), _rng(0, op, 6), _rng(0, k, ns - 1), _rng(0, x, B['cap']), _rng(0, y, B['cap']), rope.bor(op != 5, rope.bnot(cb)))
+    pre: _all(_rng(0, loop, 2), _rng(0, op, 6), _rng(0, k, ns - 1), _rng(0, x, B['cap']), _rng(0, y, B['cap']), rope.bor(op != 5, loop != 2))
     post: _
     """
     per = _per(ns, (sw0, s00, nq0, q10, q20, done0, act0, prod0), (sw1, s01, nq1, q11, q21, done1, act1, prod1),
                (sw2, s02, nq2, q12, q22, done2, act2, prod2))
-    w = _mk_state(ns, cw, mfs, per, loop, cb)
+    w = _mk_state(ns, cw, mfs, per, loop, False)
     if not w.invariant():
         return True
     kk = 0
@@ -948,15 +958,24 @@ def _run_turns(w, n):
             break
 
 
-def _history(ns, cw, iws, mfs, prod, y, cfirst, ops):
+def _opok(o):
+    """quick tier: the history alphabet leaves out writeSequence, SETTINGS_MAX_FRAME_SIZE and the transport's
+    pause / resume (all four are exercised by the step harnesses from every state)"""
+    if B['hfull']:
+        return True
+    return _all(o != 1, o != 6, o != 9, o != 10)
+
+
+def _history(ns, cw, iws, mfs, y, idle0, ops):
     """ops: (o, k, x): 0 write x bytes on stream k, 1 writeSequence([x, y]) on k, 2 requestDone on k,
     3 WINDOW_UPDATE(stream k, +x), 4 WINDOW_UPDATE(connection, +x), 5 SETTINGS_INITIAL_WINDOW_SIZE = x,
     6 SETTINGS_MAX_FRAME_SIZE = x, 7 abort stream k, 8 one reactor turn (scheduler choice x), 9 / 10 the transport
     pauses / resumes the connection, 11 nothing.  Then: liveness phase, drain phase."""
     w = _World(ns, cw, iws, mfs)
     c = w.c
-    if prod:
-        w.register(0)
+    w.register(0)                   # stream 0 is fed by a push producer
+    if idle0:
+        w.turn()                    # nothing to send yet: the loop goes to sleep
     if not w.healthy():
         return False
     nitems = ns
@@ -967,6 +986,8 @@ def _history(ns, cw, iws, mfs, prod, y, cfirst, ops):
             continue
         if o <= 2 and (not w.live(kk) or w.done[kk]):
             continue                # the application does not write to / finish a finished stream
+        if o <= 1 and x < 1:
+            continue                # (empty writes: step_app)
         if o == 0:
             w.write(kk, x)
             nitems += 1
@@ -1024,13 +1045,10 @@ def _history(ns, cw, iws, mfs, prod, y, cfirst, ops):
                 return False        # only the end marker is left, yet END_STREAM not sent
     cover("live")
     # drain phase: the peer opens every window wide
-    if cfirst:
-        w.window_update(0, _BIG)
     for i in range(ns):
         if w.live(i):
             w.window_update(_SIDS[i], _BIG)
-    if not cfirst:
-        w.window_update(0, _BIG)
+    w.window_update(0, _BIG)
     _run_turns(w, turns)
     cover()
     if not w.healthy() or not _prod_events_ok(w):
@@ -1053,46 +1071,55 @@ def _history(ns, cw, iws, mfs, prod, y, cfirst, ops):
     return True
 
 
-def history(ns: int, cw: int, iws: int, mfs: int, prod: bool, y: int, cfirst: bool,
+def history(ns: int, cw: int, iws: int, mfs: int, y: int, idle0: bool,
             o0: int, k0: int, x0: int, o1: int, k1: int, x1: int, o2: int, k2: int, x2: int,
             o3: int, k3: int, x3: int) -> bool:
     """
-    pre: _all(_rng(1, ns, B['ns']), _rng(0, cw, B['cap']), _rng(0, iws, B['cap']), _rng(1, mfs, B['cap']), _rng(0, y, B['cap']))
-    pre: _all(_rng(0, o0, 10), _rng(0, o1, 10), _rng(0, o2, 10), _rng(0, o3, 11), rope.bor(o3 == 11, B['hist'] >= 4))
+    pre: _all(_rng(1, ns, B['hns']), _rng(0, cw, B['cap']), _rng(0, iws, B['cap']), _rng(1, mfs, B['cap']), _rng(0, y, B['cap']))
+    pre: _all(_rng(0, o0, 10), _rng(0, o1, 11), _rng(0, o2, 11), _rng(0, o3, 11), rope.bor(o3 == 11, B['hist'] >= 4), rope.bor(o2 == 11, B['hist'] >= 3))
+    pre: _all(_opok(o0), _opok(o1), _opok(o2), _opok(o3))
     pre: _all(_rng(0, k0, ns - 1), _rng(0, k1, ns - 1), _rng(0, k2, ns - 1), _rng(0, k3, ns - 1))
     pre: _all(_rng(0, x0, B['cap']), _rng(0, x1, B['cap']), _rng(0, x2, B['cap']), _rng(0, x3, B['cap']))
     post: _
     """
-    return _history(ns, cw, iws, mfs, prod, y, cfirst, ((o0, k0, x0), (o1, k1, x1), (o2, k2, x2), (o3, k3, x3)))
+    return _history(ns, cw, iws, mfs, y, idle0, ((o0, k0, x0), (o1, k1, x1), (o2, k2, x2), (o3, k3, x3)))
 
 
-_R1 = "prod1 == 0 and not done1 and nq1 <= 1"      # quick tier: the second stream in a reduced set of states
+_R1 = "prod1 == 0 and not done1 and nq1 <= 1"      # second stream in a reduced set of states
 
 
 def _turn_shards(tier):
     if tier == "quick":
-        return [("ns == 1",), ("ns == 2", _R1, "not cb"), ("ns == 2", _R1, "cb")]
-    return [("ns == %d" % n, "nq0 == %d" % a) for n in range(1, BOUNDS[tier]["ns"] + 1) for a in range(3)]
+        return [("ns == 1",), ("ns == 2", _R1, "not cb", "nq0 <= 1"), ("ns == 2", _R1, "not cb", "nq0 == 2"),
+                ("ns == 2", _R1, "cb")]
+    return [("ns == 1",)] + [("ns == 2", "nq0 == %d" % a, "nq1 == %d" % b2) for a in range(3) for b2 in range(3)]
 
 
 def _event_shards(tier):
     if tier == "quick":
-        return ([("ns == 1", "loop == %d" % l) for l in range(3)]
-                + [("ns == 2", _R1, "loop == %d" % l, "ev == %d" % e) for l in range(3) for e in range(4)])
-    return [("ns == %d" % n, "loop == %d" % l, "ev == %d" % e) for n in range(1, BOUNDS[tier]["ns"] + 1)
-            for l in range(3) for e in range(4)]
+        return [("ns == 1", "loop == 0"), ("ns == 1", "loop == 1", "ev <= 1"), ("ns == 1", "loop == 1", "ev >= 2"),
+                ("ns == 1", "loop == 2")]
+    return ([("ns == 1", "loop == %d" % l) for l in range(3)]
+            + [("ns == 2", _R1, "loop == %d" % l, "ev == %d" % e) for l in range(3) for e in range(4)])
 
 
 def _app_shards(tier):
     if tier == "quick":
-        return ([("ns == 1", "loop == %d" % l) for l in range(3)]
-                + [("ns == 2", _R1, "op == %d" % o) for o in range(7)])
-    return [("ns == %d" % n, "loop == %d" % l, "op == %d" % o) for n in range(1, BOUNDS[tier]["ns"] + 1)
-            for l in range(3) for o in range(7)]
+        return [("ns == 1", "loop == %d" % l, c) for l in range(3) for c in ("op <= 1", "op >= 2")]
+    return ([("ns == 1", "loop == %d" % l) for l in range(3)]
+            + [("ns == 2", _R1, "op == %d" % o) for o in range(7)])
+
+
+def _hist_shards(tier):
+    if tier == "quick":
+        return ([("o0 == 0", c) for c in ("o1 <= 2", "o1 == 3 or o1 == 4", "o1 == 5 or o1 == 7", "o1 == 8 or o1 == 11")]
+                + [("o0 == %d" % a,) for a in (2, 3, 4, 5, 7, 8)])
+    return [("ns == %d" % n, "o0 == %d" % a, "o1 == %d" % b2) for n in (1, 2) for a in range(11) for b2 in range(12)]
 
 
 HARNESSES = [
     H(step_turn, shards=_turn_shards, timeout={"quick": 90, "thorough": 900}, labels=("end", "ended", "sent")),
     H(step_event, shards=_event_shards, timeout={"quick": 90, "thorough": 900}),
     H(step_app, shards=_app_shards, timeout={"quick": 90, "thorough": 900}),
+    H(history, shards=_hist_shards, timeout={"quick": 90, "thorough": 900}, labels=("end", "ops", "live")),
 ]
